@@ -96,6 +96,11 @@ def queries_for(roots, alpha, rnd, limit):
                     qs.extend([p + w, p + w + tail, p + bump(w, 1), p + bump(w, -1), p + w[:-1], p + w + alpha[0], p + bump(w, 1) + tail])
     for _ in range(max(50, len(entries) // 4)):
         qs.append(''.join(rnd.choice(alpha) for _ in range(rnd.randint(0, 20))))
+    # the lookup compares strings as they are: characters outside the registry alphabet (other case, other scripts)
+    # never match and must come back unchanged
+    if any(c.isalpha() for c in alpha):
+        qs.extend([q.lower() for q in qs[1:400:3]] + [q.swapcase() for q in qs[2:400:5]])
+    qs.extend([q[:1] + 'é' + q[1:] for q in qs[1:200:7]] + [q + '٣' for q in qs[1:200:11]])
     return qs
 
 
@@ -166,7 +171,7 @@ def shard_shipped(a):
 
 
 def registry_texts():
-    alpha = st.sampled_from(['01', '012', '0123456789', '019AZ'])
+    alpha = st.sampled_from(['01', '012', '0123456789', '019AZ', '01az', '0Aa'])
 
     @st.composite
     def reg(draw):
@@ -198,7 +203,7 @@ def registry_texts():
                     level(depth + 1, indent + step)
         level(0, 0)
         text = '\n'.join(lines) + '\n'
-        qs = draw(st.lists(st.text(alphabet=st.sampled_from(al), max_size=9), min_size=8, max_size=25))
+        qs = draw(st.lists(st.text(alphabet=st.sampled_from(al + al.lower() if any(c.isalpha() for c in al) else al), max_size=9), min_size=8, max_size=25))
         return {'text': text, 'qs': qs}
     return reg()
 
